@@ -550,6 +550,13 @@ fn handle_failures(run: &mut Run, fam: &Family, hist: &[Op], op: Option<&Op>, fa
         ops.push(o.to_string());
     }
     let replay = json!({"engine": "histex", "family": fam.name, "config": crate::wire::NAME, "ops": ops});
+    // the wire decoder is the observation channel of every histex check: if it and the library
+    // disagree on the layout, only C13 may give a verdict; every other check stops as machinery
+    if !owned.iter().any(|p| p.starts_with("C13")) {
+        if let Some(f) = fails.iter().find(|f| f.clause == "C13.w") {
+            machinery(&format!("the independent wire decoder and the library disagree ({}); this is C13's verdict to give - run `bin/check C13 quick`", f.msg));
+        }
+    }
     // a listed finding taints the history whatever property is being checked
     if let Some(id) = fails.iter().find_map(classify) {
         st.tainted += 1;
